@@ -380,7 +380,7 @@ fn enc_op(r: &mut Rng, sink: &mut Sink, kind: u64) -> Option<Vec<u8>> {
     input.extend_from_slice(&tail);
     let input = Bytes::from(input);
     let (d, val) = dec_obs(&input, pt);
-    sink.line(&op, &format!("bytes={} size={} max={} {}", hex(&e.bytes), e.size, e.max, d));
+    sink.line(&op, &format!("wf={} bytes={} size={} max={} {}", b01(wf), hex(&e.bytes), e.size, e.max, d));
     if wf {
         sink.nontrivial();
         // monitors: never consult the model
